@@ -599,6 +599,98 @@ def check_reorder(rep, prog, m):
     rep.ob('R-ORD', '_get_demographic_events break_points', okb and cnt >= 2, '%d ordered uses of the break-point set, all through sorted()' % cnt, rel, ge.lineno, what='set of break points consumed only through sorted()')
 
 
+def check_output_names(rep, prog):
+    """Demes.output: propagation of deme names through Remove / Reorder / Split events (reader side of the event log)"""
+    dm = prog.mod(DI)
+    out = prog.func(DI, 'output')
+    chain = None
+    for n in own_nodes(out):
+        if isinstance(n, ast.If) and ast.unparse(n.test) == 'isinstance(younger, Split)':
+            chain = n
+    if chain is None:
+        raise AnalysisError('anchor vanished: name propagation chain in Demes.output')
+    arms = {}
+    node = chain
+    while node is not None:
+        arms[ast.unparse(node.test)] = node.body
+        node = node.orelse[0] if (len(node.orelse) == 1 and isinstance(node.orelse[0], ast.If)) else None
+    # ---- Reorder: new[k] = old[neworder[k]-1]  (what PhiManip.reorder_pops does to the axes) ------------------------
+    body = arms.get('isinstance(younger, Reorder)')
+    verdict, det = None, 'Reorder arm not found'
+    if body is not None:
+        det = '; '.join(ast.unparse(x) for x in body)
+        if len(body) == 1 and isinstance(body[0], ast.Assign) and isinstance(body[0].value, ast.ListComp):
+            lc = body[0].value
+            v = ast.unparse(lc.generators[0].target)
+            if ast.unparse(lc.generators[0].iter) == 'younger.neworder' and ast.unparse(lc.elt) == 'older.deme_ids[%s - 1]' % v and ast.unparse(body[0].targets[0]) == 'younger.deme_ids':
+                verdict = True
+        if verdict is None:
+            # scatter form: for i, pos in enumerate(neworder): new[pos-1] = old[i]  is the INVERSE permutation
+            for x in body:
+                if isinstance(x, ast.For) and 'enumerate(younger.neworder)' in ast.unparse(x.iter) and isinstance(x.target, ast.Tuple):
+                    iv, pv = [e.id for e in x.target.elts]
+                    for y in x.body:
+                        if isinstance(y, ast.Assign) and isinstance(y.targets[0], ast.Subscript):
+                            ti, vi = ast.unparse(y.targets[0].slice), ast.unparse(y.value)
+                            if ti == '%s - 1' % pv and vi == 'older.deme_ids[%s]' % iv:
+                                verdict = False      # new[neworder[i]-1] = old[i]
+                            elif ti == iv and vi == 'older.deme_ids[%s - 1]' % pv:
+                                verdict = True       # new[i] = old[neworder[i]-1]
+        if verdict is None:
+            raise AnalysisError('Demes.output: the Reorder arm has a form the rule does not recognise: %s' % det[:120])
+    rep.ob('R-TPL', 'Demes.output Reorder names', bool(verdict), det[:160], dm.rel, body[0].lineno if body else out.lineno,
+           what='names after a reorder: new[k] = old[neworder[k]-1], the permutation PhiManip.reorder_pops applies to the axes (not its inverse)')
+    rp = prog.func('dadi.PhiManip', 'reorder_pops')
+    t = ast.unparse(rp)
+    rep.ob('R-TPL', 'PhiManip.reorder_pops axes', 'newaxes = [_ - 1 for _ in neworder]' in t and 'phi.transpose(newaxes)' in t, 'new axis k = old axis neworder[k]-1', 'dadi/PhiManip.py', rp.lineno,
+           what='writer side of the Reorder event')
+    body = arms.get('isinstance(younger, Remove)')
+    okr = body is not None and [ast.unparse(x) for x in body] == ['younger.deme_ids = list(older.deme_ids)', 'del younger.deme_ids[younger.removed - 1]', 'younger.deme_ids = tuple(younger.deme_ids)']
+    rep.ob('R-TPL', 'Demes.output Remove names', okr, '; '.join(ast.unparse(x) for x in body) if body else 'not found', dm.rel, body[0].lineno if body else out.lineno,
+           what='names after a removal: copy of the older names without entry removed-1 (1-based event field)')
+    body = arms.get('isinstance(younger, Split)')
+    oks = body is not None and any(ast.unparse(x) == "younger.deme_ids = ['d{0}_{1}'.format(era, ii + 1) for ii in range(len(older.deme_ids) + 1)]" for x in body) and any(ast.unparse(x) == 'era += 1' for x in body)
+    rep.ob('R-TPL', 'Demes.output Split names', oks, 'a split creates one more deme than before, all renamed in a new era', dm.rel, body[0].lineno if body else out.lineno, what='names after a split')
+    # end times: accumulated from the present backwards
+    t = ast.unparse(out)
+    oke = 'cache[-1].end_time = 0' in t and 'for younger, older in zip(cache[::-1][:-1], cache[::-1][1:])' in t and 'older.end_time = younger.end_time + younger.duration' in t
+    rep.ob('R-TPL', 'Demes.output end times', oke, 'end_time(older) = end_time(younger) + duration(younger), starting from 0 at the present', dm.rel, out.lineno, what='event end times accumulate durations backwards in time')
+
+
+def check_shift_deme_time(rep, prog):
+    """DemesUtil._shift_deme_time: each epoch's size at the slice time is interpolated between the UNSHIFTED start and end
+    times; the next epoch starts at the unshifted end time of this one"""
+    m = prog.mod(DU)
+    fn = prog.func(DU, '_shift_deme_time')
+    loops = [n for n in ast.walk(fn) if isinstance(n, ast.For) and isinstance(n.target, ast.Name) and n.target.id == 'e']
+    if len(loops) != 1:
+        raise AnalysisError('anchor vanished: epoch loop of _shift_deme_time')
+    state = 'orig'     # is e['end_time'] still the unshifted value?
+    size_ok = next_ok = shift_ok = None
+    for st in loops[0].body:
+        txt = ast.unparse(st)
+        reads_end = "e['end_time']" in txt
+        if isinstance(st, ast.Assign) and isinstance(st.value, ast.Call) and dotted(st.value.func) == '_size_at':
+            size_ok = state == 'orig' and [ast.unparse(a) for a in st.value.args] == ['t', "e['start_size']", "e['end_size']", 'start_time', "e['end_time']", "e['size_function']"]
+        elif isinstance(st, ast.Assign) and ast.unparse(st.targets[0]) == 'start_time':
+            next_ok = state == 'orig' and ast.unparse(st.value) == "e['end_time']"
+        elif isinstance(st, ast.Assign) and ast.unparse(st.targets[0]) == "e['end_time']":
+            shift_ok = ast.unparse(st.value) == "max(0, e['end_time'] - t)" and state == 'orig'
+            state = 'shifted'
+        elif isinstance(st, ast.Assign) and ast.unparse(st.targets[0]) == 'e':
+            # rebinding e to a shifted copy
+            if 'end_time' in txt:
+                shift_ok = "max(0, e['end_time'] - t)" in txt and state == 'orig'
+                state = 'shifted'
+    rep.ob('R-ORD', '_shift_deme_time size at slice', bool(size_ok), '_size_at receives the unshifted start and end times of the epoch', m.rel, loops[0].lineno, what='interpolation uses unshifted epoch times')
+    rep.ob('R-ORD', '_shift_deme_time next start', bool(next_ok), 'start_time of the next epoch = unshifted end_time of this epoch (read before the shift)', m.rel, loops[0].lineno,
+           what='next epoch starts at the unshifted end time of the previous one')
+    rep.ob('R-ORD', '_shift_deme_time shift', bool(shift_ok), "end_time shifted by t and clipped at 0", m.rel, loops[0].lineno, what='epoch end times are shifted once')
+    t = ast.unparse(fn)
+    oke = "if e['end_time'] == 0" in t and "d_shifted[k][-1]['end_size'] = size_at_t" in t and 'break' in t and 'd_shifted[k] = v - t' in t
+    rep.ob('R-TPL', '_shift_deme_time cut', oke, 'the epoch that reaches the slice time gets the interpolated end size and later epochs are dropped; start_time shifted by t', m.rel, fn.lineno, what='sliced epoch ends with the size at the slice time')
+
+
 def run(rep, prog, tier):
     m = prog.mod(DM)
     rep.saw_file(m.rel)
@@ -616,4 +708,6 @@ def run(rep, prog, tier):
     check_size_at(rep, prog)
     check_event_writers(rep, prog)
     check_reorder(rep, prog, m)
+    check_output_names(rep, prog)
+    check_shift_deme_time(rep, prog)
     rep.floor('R-IDX', 110)
